@@ -25,6 +25,14 @@ Input classes (all inside the property's quantifier "all finite real sequences o
       `calculate_rfc`, against an independent harness-side ASTM reference (`ref_*`, itself compared with the Lean model on
       every K0 case), with a tolerance of 1e-12 of the signal's magnitude, and only where exact and float arithmetic take the
       same decisions ("robust" cases); the structural clauses are evaluated on every case.
+* K4  one TimeSeries whose time grid is uniform OR NOT (alternating short / long steps, random steps, a long gap, a step refined
+      part-way, jitter above and below the tolerance of `is_constant_dt`), exact samples, in a history of requests on the same
+      objects through every series-level entry point: `TimeSeries.rfc`, `app.funcs.calculate_rfc` (one or two series per
+      container, raw and re-binned), the data drawn by `TimeSeries.plot_cycle_range` and `TsDB.plot_cycle_range` (names in and
+      out of database order); with a time window or none, with options that do nothing, and with processing options
+      (filter, resampling, smoothing, taper).  Without processing options the table must be the model's table of the samples
+      inside the window (the sampling instants are irrelevant to ASTM E1049-85); with them, the table of what `get(**kwargs)`
+      returns.  The K3 signals also come on such non-uniform grids.
 An exception raised by the implementation, or a result that cannot be read as lists of pairs / an (n, 3) table, is a failing
 clause, never a harness crash.
 """
@@ -44,8 +52,11 @@ RULE = ("sequences: all words over {0,1,2,3} up to the tier's length x endpoints
         "each sequence also in another spelling (container, element type, dtype, view; fixed-width integers as ndarray, containers "
         "of numpy scalars, iterators / generators / chained blocks over integer arrays, values up to the dtype's limits; "
         "end-point option by keyword / position / default / numpy bool), in histories on one array / list / TimeSeries object (repeated and interleaved calls, in-place "
-        "changes, scribbled results, time windows, no-op options, half-step resampling, calculate_rfc), and arbitrary binary64 "
-        "signals against an independent reference with tolerance; "
+        "changes, scribbled results, time windows, no-op options, half-step resampling, calculate_rfc), series on uniform and "
+        "non-uniform time grids (alternating / random steps, gaps, refined step, jitter) through TimeSeries.rfc, calculate_rfc "
+        "(raw / re-binned, one or two series) and the data of TimeSeries / TsDB plot_cycle_range, with window / no-op / "
+        "processing options, and arbitrary binary64 "
+        "signals (uniform and non-uniform grids) against an independent reference with tolerance; "
         "non-trivial = yields at least one cycle; distinct by (endpoints, sequence)")
 
 
@@ -944,7 +955,8 @@ def gen_floats(chk):
         body = np.round(nrng.normal(0, 2, ln - len(a) - len(b)))
         x = np.concatenate([a, body, b]) * rng.choice([1.0, 0.5, 8.0]) + rng.choice([0.0, 100.0])
         yield dict(kind="float", bits=[core.fbits(v) for v in x], endpoints=False, via=via, f=0.1,
-                   win=[0, ln - 1] if rng.random() < 0.5 else [rng.randrange(5), ln - 1 - rng.randrange(5)], dt=rng.choice([1.0, 0.5]))
+                   win=[0, ln - 1] if rng.random() < 0.5 else [rng.randrange(5), ln - 1 - rng.randrange(5)], dt=rng.choice([1.0, 0.5]),
+                   pattern=None if via.startswith("functions") or i % 4 != 2 else [0.5, 0.5, 2.0])
     for k in range(n):
         ln = rng.choice([2, 3, 4, 5, 8, 16, 40, 100, 300, 700])
         kind = rng.choice(["gauss", "sines", "walk", "plateau", "decimal", "narrow", "sawtooth"])
@@ -968,7 +980,18 @@ def gen_floats(chk):
         ep = rng.random() < 0.5 if via.startswith("functions") else False
         yield dict(kind="float", bits=[core.fbits(v) for v in x], endpoints=ep, via=via,
                    f=round(rng.uniform(0.05, 0.4), 3), win=sorted(rng.sample(range(ln), 2)) if ln >= 2 else [0, 0],
-                   dt=rng.choice([1.0, 0.5, 0.1, 2.0]))
+                   dt=rng.choice([1.0, 0.5, 0.1, 2.0]),
+                   pattern=None if via.startswith("functions") else rng.choice(TIME_PATTERNS))
+
+
+TIME_PATTERNS = (None, None, [0.5, 0.5, 2.0], [1.0, 3.0], [1.0, 1.0, 1.0, 1.0, 7.0], [1.0, 1.001], [0.25, 1.0, 0.5])
+
+
+def float_times(n, dt, pattern):
+    """time array of a K3 signal: uniform, or the step pattern (multiples of dt) repeated"""
+    if not pattern or n < 2:
+        return np.arange(n) * dt
+    return np.concatenate([[0.0], np.cumsum(np.resize(np.array(pattern, dtype=float), n - 1))]) * dt
 
 
 def _rows_close(A, B, tol):
@@ -1011,7 +1034,7 @@ def check_float(chk, c):
             from qats import TimeSeries
             from qats.app.funcs import calculate_rfc
             dt = c["dt"]
-            t = np.arange(len(x)) * dt
+            t = float_times(len(x), dt, c.get("pattern"))
             ts = TimeSeries("a", t, np.array(x))
             kw = {}
             if via in ("ts.rfc:twin", "calculate_rfc"):
@@ -1019,7 +1042,7 @@ def check_float(chk, c):
                 kw["twin"] = (float(t[i]), float(t[j]))
                 xin = x[i:j + 1]
             elif via in ("ts.rfc:lp", "ts.rfc:hp", "calculate_rfc:lp"):
-                kw["filterargs"] = (via[-2:], c["f"] / dt)
+                kw["filterargs"] = (via[-2:], c["f"] / float(np.mean(np.diff(t))))    # relative to the mean time step
                 if via.startswith("calc"):
                     kw["twin"] = (float(t[0]), float(t[-1]))
                 xin = [float(v) for v in ts.get(**kw)[1]]              # the filter is C12's subject; here: what is counted
@@ -1027,8 +1050,8 @@ def check_float(chk, c):
                 try:
                     r, cc = calculate_rfc({"a": ts}, kw["twin"], kw.get("filterargs"), None)["a"]
                     entry_tab = [(float(a), float(b)) for a, b in zip(r, cc)]
-                except ValueError:
-                    entry_tab = "empty-unpack"
+                except Exception as e:               # (an EMPTY table cannot be unpacked there: recorded observation, DESIGN 9.4)
+                    entry_tab = "raises " + type(e).__name__
             else:
                 entry_tab = [tuple(float(v) for v in row) for row in ts.rfc(**kw)]
 
@@ -1077,9 +1100,9 @@ def check_float(chk, c):
             chk.fail("counted cycles == ASTM E1049-85 5.4.4 on the turning points (independent reference, 1e-12 of the magnitude)",
                      inp, *_diff(rf_f["table"], tab))
         if entry_tab is not None:
-            if entry_tab == "empty-unpack":
+            if isinstance(entry_tab, str):
                 if tab:
-                    chk.fail("calculate_rfc gives the ranges and counts of the window's table", inp, str(tab[:4]), "ValueError")
+                    chk.fail("calculate_rfc gives the ranges and counts of the window's table", inp, str(tab[:4]), entry_tab)
             elif via.startswith("calculate_rfc"):
                 if not _rows_close([(r, 0.0, c2) for r, c2 in entry_tab], [(r, 0.0, c2) for r, m, c2 in tab], tol):
                     chk.fail("calculate_rfc gives the ranges and counts of the window's table", inp,
@@ -1092,6 +1115,307 @@ def check_float(chk, c):
     except Exception as e:
         chk.fail("reversals / cycles / count_cycles / TimeSeries.rfc give well-formed results for a finite series of >= 2 samples",
                  inp, "no error", "%s: %s" % (type(e).__name__, str(e)[:200]))
+
+# =============================================================================================================
+# K4: series on uniform and non-uniform time grids through every series-level entry point (histories on the same objects)
+# =============================================================================================================
+GRIDS = ("uniform", "alternating", "random", "gap", "refined", "jitter")
+SERIES_VIAS = ("ts.rfc", "ts.rfc", "ts.rfc", "calculate_rfc", "calculate_rfc", "calculate_rfc", "calculate_rfc",
+               "ts.plot_cycle_range", "tsdb.plot_cycle_range")
+SERIES_NOOPS = ("taperfrac=0.0", "filterargs=None", "resample=None", "window=hanning", "twin=None")
+SERIES_PROCS = ("lp", "hp", "bp", "resample", "smooth", "taper")
+
+
+def grid_steps(rng, name, n):
+    """n-1 positive time increments, exact dyadic rationals"""
+    F = Fraction
+    if name == "uniform":
+        return [rng.choice([F(1), F(1, 2), F(2), F(1, 8)])] * (n - 1)
+    if name == "alternating":                   # e.g. an event-driven logger: short steps, then a long one
+        pat = rng.choice([[F(1, 2), F(1, 2), F(2)], [F(1), F(3)], [F(1, 4), F(1)], [F(2), F(1, 2)], [F(1), F(1), F(1), F(5)]])
+        return [pat[i % len(pat)] for i in range(n - 1)]
+    if name == "random":
+        return [rng.choice([F(1, 4), F(1, 2), F(1), F(2), F(3)]) for _ in range(n - 1)]
+    if name == "gap":                           # a uniform record with a hole
+        st = [F(1)] * (n - 1)
+        st[rng.randrange(n - 1)] = F(rng.choice([5, 20, 100]))
+        return st
+    if name == "refined":                       # the logging step changes part-way
+        k = rng.randrange(n)
+        a, b = rng.choice([(F(1), F(1, 8)), (F(1, 4), F(2)), (F(1), F(1, 2))])
+        return ([a] * k + [b] * (n - 1))[:n - 1]
+    if name == "jitter":                        # nominal step 1; 2^-6 / 2^-10: visibly varying; 2^-24: inside is_constant_dt's 1e-5
+        j = F(1, 2 ** rng.choice([6, 10, 24]))
+        return [F(1) + rng.choice([-1, 0, 1]) * j for _ in range(n - 1)]
+    raise ValueError("unknown grid " + name)
+
+
+def gen_series(chk, cases):
+    rng = chk.rng
+    pool = [c[0] for c in cases if 5 <= len(c[0]) <= 64 and all(abs(Fraction(v)) < 2 ** 20 for v in c[0])
+            and all(Fraction(v).denominator <= 2 ** 20 for v in c[0])]
+    n = 220 if chk.quick else 2500
+    for k in range(n):
+        if k % 2:
+            seq = [Fraction(v) for v in rng.choice(pool)]
+        else:                                   # records long enough for windows and filters
+            ln = rng.choice([8, 12, 30, 50, 80, 120])
+            if rng.random() < 0.5:
+                seq = [Fraction(rng.randint(-16, 16), rng.choice([1, 2, 4])) for _ in range(ln)]
+            else:                               # walk with plateaus
+                x, seq = Fraction(0), []
+                for _i in range(ln):
+                    x += Fraction(rng.choice([-3, -2, -1, 0, 0, 1, 2, 3]), rng.choice([1, 2]))
+                    seq.append(x)
+        ln = len(seq)
+        grid = GRIDS[k % len(GRIDS)]
+        b_grid = "alternating" if grid == "uniform" else rng.choice(["uniform", "uniform", "random"])
+        c = dict(kind="series", series=[str(v) for v in seq], t0=str(rng.choice([0, 0, 10, -3])), grid=grid,
+                 steps=[str(v) for v in grid_steps(rng, grid, ln)], b_grid=b_grid,
+                 b_steps=[str(v) for v in grid_steps(rng, b_grid, ln)], requests=[])
+        for _ in range(rng.randint(2, 5)):
+            via = rng.choice(SERIES_VIAS)
+            rq = dict(via=via)
+            if rng.random() < 0.55:
+                i = rng.randrange(ln - 1)
+                j = rng.randint(i + 1, ln - 1)
+                if rng.random() < 0.2:
+                    i, j = 0, ln - 1                                          # a window that does nothing
+                rq.update(win=[i, j], pad=rng.choice(["0", "0", "1/16"]), twin_as=rng.choice(["tuple", "list", "tuple"]))
+            r = rng.random()
+            if r < 0.2 and via != "calculate_rfc":
+                rq["opt"] = rng.choice(SERIES_NOOPS)
+            elif r < 0.4:
+                nwin = rq["win"][1] - rq["win"][0] + 1 if "win" in rq else ln
+                procs = SERIES_PROCS[:3] if via == "calculate_rfc" else SERIES_PROCS
+                if nwin < 40:                    # (the filters need some 20-35 samples)
+                    procs = procs[3:]
+                if not procs:
+                    continue
+                rq["opt"] = rng.choice(procs)
+                rq["f"] = rng.choice([0.05, 0.1, 0.2, 0.3])
+            if via == "ts.rfc":
+                rq["who"] = rng.choice(["a", "a", "b"])
+            elif via == "calculate_rfc":
+                rq["who"] = rng.choice(["a", "ab", "ba"])
+                rq["nbins"] = rng.choice([None, None, None, 2, 5, 16, 256])
+                rq["nbins_as"] = rng.choice(["pos", "kw"])
+            elif via == "ts.plot_cycle_range":
+                rq["who"] = rng.choice(["a", "a", "b"])
+                rq.update(rng.choice([dict(n=2), dict(n=7), dict(n=25), dict(n=3), dict(n=None, w="1/2"), dict(n=10, w="1"), dict(n=5),
+                                      dict(n=None, w="2"), dict(default=True) if rng.random() < 0.3 else dict(n=12)]))
+            else:
+                rq["who"] = rng.choice(["a", "ab", "ba", "all", "b"])
+                rq.update(rng.choice([dict(n=3), dict(n=10), dict(n=2), dict(n=6), dict(n=None, w="1"), dict(n=None, w="2"),
+                                      dict(default=True) if rng.random() < 0.2 else dict(n=16)]))
+            c["requests"].append(rq)
+        c["requests"].append(dict(via="ts.rfc", who="a"))
+        # every window must hold at least two samples of every series it is applied to
+        d = series_data(c)
+        if all(len(s) >= 2 for rq in c["requests"] for _nm, s in series_windows(c, rq, d)):
+            yield c
+
+
+def series_data(c):
+    """exact times and samples of the two series: a (the case's grid) and b (the same samples reversed, on another grid)"""
+    xa = [Fraction(v) for v in c["series"]]
+    t0 = Fraction(c["t0"])
+
+    def times(steps):
+        t = [t0]
+        for d in steps:
+            t.append(t[-1] + Fraction(d))
+        return t
+    return dict(a=(times(c["steps"]), xa), b=(times(c["b_steps"]), xa[::-1]))
+
+
+def series_twin(c, rq, d=None):
+    if "win" not in rq:
+        return None
+    ta = (d or series_data(c))["a"][0]
+    pad = Fraction(rq["pad"])
+    return ta[rq["win"][0]] - pad, ta[rq["win"][1]] + pad
+
+
+def series_who(rq):
+    return {"a": ["a"], "b": ["b"], "ab": ["a", "b"], "ba": ["b", "a"], "all": ["a", "b"]}[rq["who"]]
+
+
+def series_windows(c, rq, d=None):
+    """(name, samples inside the request's time window) for every series the request touches"""
+    d = d or series_data(c)
+    tw = series_twin(c, rq, d)
+    for nm in series_who(rq):
+        t, x = d[nm]
+        yield nm, [v for u, v in zip(t, x) if tw is None or tw[0] <= u <= tw[1]]
+
+
+def series_model_requests(c):
+    d = series_data(c)
+    for rq in c["requests"]:
+        if rq.get("opt") not in SERIES_PROCS:
+            for _nm, s in series_windows(c, rq, d):
+                yield s, False
+
+
+def _bars(num):
+    """what a bar chart shows: {label: [(bar centre, bar height)]}"""
+    import matplotlib.pyplot as plt
+    out = {}
+    for cont in plt.figure(num).gca().containers:
+        out[str(cont.get_label())] = [(float(p.get_x() + p.get_width() / 2), float(p.get_height())) for p in cont.patches]
+    return out
+
+
+def run_series(chk, c, model):
+    from qats import TimeSeries, TsDB
+    from qats.app.funcs import calculate_rfc
+    from qats.fatigue import rainflow as rf
+    import matplotlib.pyplot as plt
+    data = series_data(c)
+    obj = {nm: TimeSeries(nm, np.array([float(u) for u in t]), np.array([float(v) for v in x])) for nm, (t, x) in data.items()}
+    db = TsDB()
+    db.add(obj["a"])
+    db.add(obj["b"])
+    scale = max([abs(float(v)) for v in data["a"][1]] + [1e-300])
+    tol = 1e-12 * scale
+    fig = 97
+
+    def show(rows):
+        return str([tuple(round(float(v), 14) for v in r) for r in rows][:12])
+
+    for k, rq in enumerate(c["requests"]):
+        inp = dict(c, step=k)
+        via, opt = rq["via"], rq.get("opt")
+        chk.count("series-request")
+        chk.dist("series:%s" % via)
+        names = series_who(rq)
+        try:
+            kw = {}
+            tw = series_twin(c, rq, data)
+            if tw is not None:
+                kw["twin"] = [float(tw[0]), float(tw[1])] if rq.get("twin_as") == "list" else (float(tw[0]), float(tw[1]))
+            if opt in SERIES_NOOPS:
+                key, _, val = opt.partition("=")
+                kw[key] = {"0.0": 0.0, "None": None, "hanning": "hanning"}[val]
+                if key == "twin" and tw is not None:
+                    kw["twin"] = (float(tw[0]), float(tw[1]))                  # (the request already has a window: keep it)
+            elif opt in ("lp", "hp", "bp"):
+                # frequencies relative to the coarsest mean time step among the series of the request (below Nyquist for all)
+                step = max(float((data[nm][0][-1] - data[nm][0][0]) / (len(data[nm][0]) - 1)) for nm in names)
+                kw["filterargs"] = (opt, rq["f"] / step) if opt != "bp" else ("bp", rq["f"] / 2 / step, min(2 * rq["f"], 0.45) / step)
+            elif opt == "resample":
+                kw["resample"] = float(rq["f"] * 5)
+            elif opt == "smooth":
+                kw["window_len"] = 3
+            elif opt == "taper":
+                kw["taperfrac"] = rq["f"]
+            plain = opt not in SERIES_PROCS
+            # -- what must be counted: exactly the samples inside the window (model), or what get(**kwargs) returns
+            exp, counted = {}, {}
+            if not plain:
+                try:
+                    for nm in names:
+                        obj[nm].get(**kw)
+                except Exception:
+                    chk.dist("series:get(**kwargs) raises (the processing is not C02's subject)")
+                    continue
+            for nm, s in series_windows(c, rq, data):
+                if plain:
+                    exp[nm] = [tuple(float(v) for v in row) for row in sorted(parse_table(model[(False, tuple(s))][2]))]
+                    counted[nm] = [float(v) for v in s]
+                else:
+                    counted[nm] = [float(v) for v in obj[nm].get(**kw)[1]]
+                    exp[nm] = [tuple(float(v) for v in row) for row in ref_all(counted[nm], False)["table"]] \
+                        if len(counted[nm]) >= 2 else []
+            if any(len(counted[nm]) < 2 for nm in names):
+                chk.dist("series:fewer than two samples after processing (outside the quantifier)")
+                continue
+            what = ("the samples inside the time window, whatever their sampling instants (Lean model Qats.Rainflow)" if plain else
+                    "the series that get(**kwargs) returns (independent reference, 1e-12 of the magnitude)")
+            if via == "ts.rfc":
+                nm = names[0]
+                tab_a = obj[nm].rfc(**kw)
+                shape = tuple(np.shape(tab_a))
+                if len(shape) != 2 or shape[1] != 3:
+                    chk.fail("table has three columns", inp, "(n,3)", str(shape), stream="series")
+                    continue
+                got = [tuple(float(v) for v in row) for row in tab_a]
+                if any(got[i][:2] > got[i + 1][:2] for i in range(len(got) - 1)):
+                    chk.fail("table sorted by range then mean", inp, "sorted", show(got), stream="series")
+                npts = len(ref_reversals(counted[nm], False)) if len(counted[nm]) >= 2 else 0
+                if any(r[2] not in (1.0, 0.5) for r in got) or 2 * sum(r[2] for r in got) != max(npts - 1, 0):
+                    chk.fail("counts are 1.0 or 0.5 and 2*full + half == counted points - 1 (turning points of " + what + ")",
+                             inp, max(npts - 1, 0), 2 * sum(r[2] for r in got), stream="series")
+                if plain:
+                    ok = sorted(got) == sorted(exp[nm])
+                else:
+                    fr = ref_all([Fraction(v) for v in counted[nm]], False)["table"] if len(counted[nm]) >= 2 else []
+                    robust = len(fr) == len(exp[nm]) and _rows_close(exp[nm], [tuple(float(v) for v in r) for r in fr], tol)
+                    ok = _rows_close(got, exp[nm], tol) or not robust
+                if not ok:
+                    chk.fail("TimeSeries.rfc(**kwargs) == ASTM E1049-85 5.4.4 table of " + what, inp, show(exp[nm]), show(got),
+                             stream="series")
+                continue
+            # -- the other entry points show (range, count) of each series' table, raw or re-binned by range
+            if any(not exp[nm] for nm in names):
+                chk.dist("series:no-cycle (not evaluated through %s)" % via)   # an empty table cannot be unpacked / re-binned there
+                continue
+            if via == "calculate_rfc":
+                rb = dict(n=rq["nbins"]) if rq["nbins"] is not None else None
+            elif rq.get("default"):
+                rb = dict(n=200)
+            else:
+                rb = dict(n=rq.get("n"), w=float(Fraction(rq["w"])) if rq.get("w") else None)
+            want = {}
+            try:
+                for nm in names:
+                    rows = exp[nm] if rb is None else [tuple(r) for r in rf.rebin(np.array(exp[nm]), binby="range", **rb)]
+                    want[nm] = [(float(r[0]), float(r[2])) for r in rows]
+            except Exception:
+                chk.dist("series:re-binning undefined (C04's subject)")
+                continue
+            if rb is not None and any(len(want[nm]) < 2 for nm in names) and via != "calculate_rfc":
+                continue                                                       # a single bin: the bar width is undefined
+            if via == "calculate_rfc":
+                cont = {nm: obj[nm] for nm in names}
+                fargs = kw.get("filterargs")
+                res = calculate_rfc(cont, kw.get("twin"), fargs, rq["nbins"]) if rq["nbins_as"] == "pos" else \
+                    calculate_rfc(cont, kw.get("twin"), fargs, nbins=rq["nbins"])
+                got = {nm: [(float(a), float(b)) for a, b in zip(*res[nm])] for nm in names}
+                if list(res.keys()) != names:
+                    chk.fail("calculate_rfc answers for every series of the container", inp, names, list(res.keys()), stream="series")
+                text = "calculate_rfc gives the ranges and counts%s of each series' ASTM E1049-85 table of " % \
+                    (" (re-binned by range)" if rb else "") + what
+            else:
+                plt.close(fig)
+                pk = {k2: v for k2, v in (("n", rq.get("n")), ("w", float(Fraction(rq["w"])) if rq.get("w") else None)) if k2 in rq}
+                try:
+                    if via == "ts.plot_cycle_range":
+                        obj[names[0]].plot_cycle_range(show=False, num=fig, **pk, **kw)
+                    else:
+                        db.plot_cycle_range(names=None if rq["who"] == "all" else names if len(names) > 1 else names[0],
+                                            show=False, num=fig, **pk, **kw)
+                    got = _bars(fig)
+                finally:
+                    plt.close(fig)
+                if sorted(got.keys()) != sorted(names):
+                    chk.fail("plot_cycle_range draws one set of bars per requested series", inp, names, list(got.keys()),
+                             stream="series")
+                    continue
+                text = "%s draws the ranges and counts (re-binned by range) of each series' ASTM E1049-85 table of " % via + what
+            for nm in names:
+                g, w_ = got[nm], want[nm]
+                if plain and rb is None:
+                    ok = sorted(g) == sorted(w_)
+                else:
+                    ok = _rows_close([(r, 0.0, n_) for r, n_ in g], [(r, 0.0, n_) for r, n_ in w_], 1e-9 * scale)
+                if not ok:
+                    chk.fail(text, dict(inp, series_name=nm), show(w_), show(g), stream="series")
+        except Exception as e:
+            chk.fail("TimeSeries.rfc / calculate_rfc / plot_cycle_range give well-formed results for a finite series of >= 2 samples "
+                     "(request %d: %s)" % (k, via), inp, "no error", "%s: %s" % (type(e).__name__, str(e)[:200]), stream="series")
+            return
 
 
 def model_lines(seq, ep):
@@ -1138,10 +1462,12 @@ def run(chk):
                         "float arithmetic take the same decisions; magnitudes within 2^+-200 (the product of two slopes neither "
                         "underflows nor the sums overflow)"]
     drv = core.Driver()
-    cases, spelled, histories, floats = [], [], [], []
+    cases, spelled, histories, floats, series = [], [], [], [], []
     for c in core.load_corpus("C02"):
         if c.get("kind") == "history":
             histories.append(c)
+        elif c.get("kind") == "series":
+            series.append(c)
         elif c.get("kind") == "float":
             floats.append(c)
         elif "as" in c:
@@ -1154,6 +1480,7 @@ def run(chk):
     spelled += list(gen_spellings(chk, cases[ncorpus:] or cases))
     histories += list(gen_histories(chk, cases))
     floats += list(gen_floats(chk))
+    series += list(gen_series(chk, cases))
     # one batch of model requests: every K0 case, then what the spellings and histories need in addition
     index = {}
     lines = []
@@ -1170,6 +1497,9 @@ def run(chk):
         need(seq, ep)
     for h in histories:
         for s, ep in history_requests(h):
+            need(s, ep)
+    for c in series:
+        for s, ep in series_model_requests(c):
             need(s, ep)
     outs = drv.run(lines)
     model = {k: tuple(outs[i:i + 3]) for k, i in index.items()}
@@ -1214,6 +1544,12 @@ def run(chk):
                      "%s: %s" % (type(e).__name__, str(e)[:200]))
     for c in floats:
         check_float(chk, c)
+    for c in series:
+        chk.count("series")
+        chk.dist("grid=" + c.get("grid", "?"))
+        run_series(chk, c, model)
+    if series:
+        chk.sample(series[-1])
     chk.sample(dict(series=[0, -2, 1, -3, 5, -1, 3, -4, 4, -2, 0], endpoints=False, note="docstring example, also a Lean `example`"))
     if histories:
         chk.sample(histories[-1])
@@ -1238,6 +1574,14 @@ def replay(rp):
         except Exception as e:
             chk.fail("every use of the same object gives the ASTM table of its current content", h, "no error",
                      "%s: %s" % (type(e).__name__, str(e)[:200]))
+    elif isinstance(inp, dict) and inp.get("kind") == "series":
+        c = {k: v for k, v in inp.items() if k not in ("step", "series_name")}
+        keys, lines = [], []
+        for s, ep in series_model_requests(c):
+            keys.append((bool(ep), tuple(s)))
+            lines += model_lines(s, ep)
+        outs = drv.run(lines)
+        run_series(chk, c, {k: tuple(outs[3 * i:3 * i + 3]) for i, k in enumerate(keys)})
     else:
         seq = [Fraction(v) for v in inp["series"]]
         ep = bool(inp["endpoints"])
